@@ -371,8 +371,8 @@ Section Model.
 
   Definition notary_deposit_limit : Z := 2000000000.
   Definition lock_interval : Z := 6 * 30 * 24 * 60 * 4.
-  Definition notary_hash : bytes :=   (* native Notary contract, big-endian script hash bytes as interop.Hash160 *)
-    [59;236;53;49;241;56;189;131;80;222;39;69;56;36;113;224;22;166;28;193]%N.
+  Definition notary_hash : bytes :=   (* interop/native/notary.Hash *)
+    [59;236;53;49;17;155;186;215;109;208;68;146;11;13;230;195;25;79;225;193]%N.
 
   (** [x.(interop.Hash160)] followed by [len(x)]: Null faults at SIZE. *)
   Definition hash_arg (x : item) : outcome bytes := field_bytes x.
